@@ -872,7 +872,176 @@ func (g *genA) versions() [][]*schemaDef {
 	if g.nsvc >= 2 && r.Intn(100) < 9 {
 		g.mixedFederation(set)
 	}
+	// Arguments and input fields with two or three list levels whose nullability differs per
+	// level ([[T!]]!, [[T]!], [[T!]!]! ...), optionally changed at one level in one version.
+	if r.Intn(100) < 25 {
+		g.deepLists(set)
+	}
+	// The same pair of references differing only in nullability (S vs S!) in an input
+	// position and in an output position of the same two schemas: the input side must come
+	// out required, the output side nullable.
+	if r.Intn(100) < 25 {
+		g.nullabilityTwins(set)
+	}
+	// List types whose non-null modifiers differ between two sides at two nesting levels in
+	// OPPOSITE directions ([S]! on one side, [S!] on the other), as argument, input field
+	// and result: every level must be merged on its own.
+	if r.Intn(100) < 20 {
+		g.crossedNullability(set)
+	}
 	return set
+}
+
+func (g *genA) crossedNullability(set [][]*schemaDef) {
+	r := g.r
+	sc := named("SCALAR", scalarNames[r.Intn(len(scalarNames))])
+	levels := 2 + r.Intn(2) // one or two list levels plus the named type
+	flags := make([]bool, levels)
+	for k := range flags {
+		flags[k] = r.Intn(2) == 0
+	}
+	p := r.Perm(levels)
+	fa, fb := append([]bool(nil), flags...), append([]bool(nil), flags...)
+	fa[p[0]], fa[p[1]] = true, false
+	fb[p[0]], fb[p[1]] = false, true
+	sideA, sideB := rebuild(sc, fa), rebuild(sc, fb)
+	add := func(d *schemaDef, t *tref) {
+		if d.Types["C0"] != nil {
+			return
+		}
+		d.Types["C0"] = &typeDef{Name: "C0", Kind: "INPUT_OBJECT", InputFields: []inputVal{{"m", t.clone()}, {"n", named("SCALAR", "int64")}}}
+		q := d.Types["Query"]
+		q.Fields = append(q.Fields, fieldDef{Name: "c0", Type: t.clone(), Args: []inputVal{{"x", t.clone()}, {"o", named("INPUT_OBJECT", "C0")}}})
+		d.gc()
+	}
+	var multi []int
+	for s := range set {
+		if len(set[s]) > 1 {
+			multi = append(multi, s)
+		}
+	}
+	switch {
+	case len(multi) > 0:
+		s := multi[r.Intn(len(multi))]
+		first := r.Intn(2)
+		for v, d := range set[s] {
+			if (v+first)%2 == 0 {
+				add(d, sideA)
+			} else {
+				add(d, sideB)
+			}
+		}
+		g.feat["gen:crossed_nullability:versions"]++
+	case len(set) >= 2:
+		q := r.Perm(len(set))
+		for _, d := range set[q[0]] {
+			add(d, sideA)
+		}
+		for _, d := range set[q[1]] {
+			add(d, sideB)
+		}
+		g.feat["gen:crossed_nullability:services"]++
+	}
+}
+
+func (g *genA) deepRef(leaf *tref) *tref {
+	r := g.r
+	levels := 2 + r.Intn(2)
+	t := leaf
+	if r.Intn(2) == 0 {
+		t = nonNull(t)
+	}
+	for l := 0; l < levels; l++ {
+		t = listOf(t)
+		if r.Intn(2) == 0 {
+			t = nonNull(t)
+		}
+	}
+	return t
+}
+
+func (g *genA) deepLists(set [][]*schemaDef) {
+	r := g.r
+	s := r.Intn(len(set))
+	leaf := named("SCALAR", scalarNames[r.Intn(len(scalarNames))])
+	if es := sortedKeysS(g.enums); len(es) > 0 && r.Intn(3) == 0 {
+		// only an enum this service already has in every version
+		e := es[r.Intn(len(es))]
+		ok := true
+		for _, d := range set[s] {
+			if d.Types[e] == nil || d.Types[e].Kind != "ENUM" {
+				ok = false
+			}
+		}
+		if ok {
+			leaf = named("ENUM", e)
+		}
+	}
+	argT, inT := g.deepRef(leaf), g.deepRef(leaf)
+	flipV, flipWhat := -1, r.Intn(2)
+	if len(set[s]) > 1 && r.Intn(2) == 0 {
+		flipV = r.Intn(len(set[s]))
+	}
+	for v, d := range set[s] {
+		a, in := argT.clone(), inT.clone()
+		if v == flipV {
+			if flipWhat == 0 {
+				flipLevel(a, -1, r)
+			} else {
+				flipLevel(in, -1, r)
+			}
+			g.feat["gen:deep_list_flip_in_one_version"]++
+		}
+		if _, clash := d.Types["D0"]; clash {
+			return
+		}
+		d.Types["D0"] = &typeDef{Name: "D0", Kind: "INPUT_OBJECT", InputFields: []inputVal{{"m", in}, {"n", named("SCALAR", "int64")}}}
+		q := d.Types["Query"]
+		q.Fields = append(q.Fields, fieldDef{Name: "d0", Type: named("SCALAR", "int64"), Args: []inputVal{{"a", a}, {"o", named("INPUT_OBJECT", "D0")}}})
+		d.gc()
+	}
+	g.feat["gen:deep_list_inputs"]++
+}
+
+func (g *genA) nullabilityTwins(set [][]*schemaDef) {
+	r := g.r
+	sc := scalarNames[r.Intn(len(scalarNames))]
+	loose := fieldDef{Name: "e0", Type: named("SCALAR", sc), Args: []inputVal{{"x", named("SCALAR", sc)}}}
+	strict := fieldDef{Name: "e0", Type: nonNull(named("SCALAR", sc)), Args: []inputVal{{"x", nonNull(named("SCALAR", sc))}}}
+	add := func(d *schemaDef, f fieldDef) {
+		nf := fieldDef{Name: f.Name, Type: f.Type.clone(), Args: []inputVal{{f.Args[0].Name, f.Args[0].Type.clone()}}}
+		q := d.Types["Query"]
+		q.Fields = append(q.Fields, nf)
+		d.gc()
+	}
+	var multi []int
+	for s := range set {
+		if len(set[s]) > 1 {
+			multi = append(multi, s)
+		}
+	}
+	switch {
+	case len(multi) > 0:
+		s := multi[r.Intn(len(multi))]
+		first := r.Intn(2)
+		for v, d := range set[s] {
+			if (v+first)%2 == 0 {
+				add(d, loose)
+			} else {
+				add(d, strict)
+			}
+		}
+		g.feat["gen:nullability_twins:versions"]++
+	case len(set) >= 2:
+		p := r.Perm(len(set))
+		for _, d := range set[p[0]] {
+			add(d, loose)
+		}
+		for _, d := range set[p[1]] {
+			add(d, strict)
+		}
+		g.feat["gen:nullability_twins:services"]++
+	}
 }
 
 // stripFederation turns object o of one schema into a plain object: no
